@@ -135,3 +135,34 @@ extern "C" void h_interleaved(void) {
    vp_assert(inter.print_outcome == solo.print_outcome && vp_streams_equal(inter.text, solo.text), 14);
    vp_done();
 }
+// the only nodes two Lexicons have in common are the immutable built-in constants: one fully symbolic spelling (0..C20_L bytes, every
+// reserved word of that length included) is requested through every word-keyed constructor of two Lexicons; the results coincide exactly
+// where the library documents a process-wide constant (reserved-word identifiers / logograms / strings, the empty string, the C and C++
+// linkages, built-in types) and are distinct nodes everywhere else, whichever Lexicon asked first
+#ifndef C20_L
+#define C20_L 6
+#endif
+extern "C" void h_common_nodes(void) {
+   impl::Lexicon* a = new impl::Lexicon; impl::Lexicon* b = new impl::Lexicon;
+   Word<C20_L> w; w.make();
+   bool reserved = false; for (auto& k : impl::known_words) if (k.text() == w.view()) reserved = true;
+   bool empty = w.len == 0, isC = w.view() == util::word_view(u8"C"), isCxx = w.view() == util::word_view(u8"C++");
+   bool b_first = vp_flag(); impl::Lexicon* first = b_first ? b : a; impl::Lexicon* second = b_first ? a : b;
+   struct Got { const void *str, *id, *op, *lit, *lk, *lg, *cc, *ty; } g[2];
+   int i = 0;
+   for (impl::Lexicon* lx : { first, second }) {
+      g[i].str = &lx->get_string(w.view()); g[i].id = &lx->get_identifier(w.view()); g[i].op = &lx->get_operator(w.view());
+      g[i].lit = &lx->get_literal(lx->int_type(), w.view()); g[i].lk = &lx->get_linkage(w.view()); g[i].lg = &lx->get_logogram(lx->get_string(w.view()));
+      g[i].cc = &lx->get_calling_convention(w.view()); g[i].ty = &lx->get_as_type(lx->get_identifier(w.view()));
+      ++i;
+   }
+   vp_assert((g[0].str == g[1].str) == (reserved || empty), 20);
+   vp_assert((g[0].id == g[1].id) == reserved, 21);
+   vp_assert(g[0].op != g[1].op && g[0].lit != g[1].lit && g[0].cc != g[1].cc, 22);           // never process-wide
+   vp_assert((g[0].lk == g[1].lk) == (isC || isCxx), 23);
+   vp_assert((g[0].lg == g[1].lg) == (reserved || empty), 24);
+   // a type obtained from the identifier is common exactly when it is one of the process-wide built-in type constants (builtin.def)
+   bool builtin_type = false; for (auto& t : impl::builtins) if (static_cast<const void*>(static_cast<const ipr::As_type*>(&t)) == g[0].ty) builtin_type = true;
+   vp_assert((g[0].ty == g[1].ty) == builtin_type, 25);
+   vp_done();
+}
